@@ -43,6 +43,8 @@ pub mod iter;
 pub mod lsp;
 pub mod parse;
 pub mod path;
+#[cfg(ucg_verif)]
+pub mod verif;
 
 pub use crate::ast::Expression;
 pub use crate::ast::Statement;
